@@ -2,7 +2,7 @@
 
     An `optional`-tagged field that is neither a pointer nor a slice is
     written by the typed path in runs: nullIndex fills a bitmap with one bit
-    per row (1 = the row holds a non-zero value, 0 = null; null.go nullIndex*),
+    per row (1 = the row holds a non-zero value, 0 = null; null.go, the nullIndex functions),
     and the loop below cuts the rows [0,n) into maximal runs of nulls and of
     non-nulls, 64 rows at a time; each run is handed to the child writer in a
     single call with one definition level.
